@@ -4,7 +4,8 @@
    compared with what the implementation produced.  Extracted separately from Check/Run.v so that the specification
    checker keeps working when the translated model does not compile. *)
 From Coq Require Import ZArith List Bool Arith.
-From SpadeV Require Import Num.Decode Num.Decode2 Geom.Pred Obs.State Obs.Spec Vmap.Model Dcel.Raw Gen.DcelOps Tri.Legalize Tri.Insert Tri.Locate Tri.InsertLine Obs.LineSpec Tri.LineIter Tri.Remove Tri.AddConstraint Query.NatNeighbor Check.Codes Check.Run.
+From SpadeV Require Import Num.Decode Num.Decode2 Geom.Pred Obs.State Obs.Spec Vmap.Model Dcel.Raw Gen.DcelOps Tri.Legalize Tri.Insert Tri.Locate Tri.InsertLine Obs.LineSpec Tri.LineIter Tri.Remove Tri.AddConstraint Query.NatNeighbor Query.FloodFill Query.FloodFillFloat Check.Codes Check.Run.
+From SpadeV Require Num.F64.
 Import ListNotations.
 
 Definition dcel_eqb (a b : dcel) : bool :=
@@ -463,6 +464,145 @@ Definition check_adde_model (f32 : bool) (p n : obs) (args res : list Z) : list 
   end.
 
 
+(* ---- rectangle / circle queries (flood fill): the result list must be the model's list, element for element.  For the vertex queries the
+   first `initial` elements (the origins of the start edges, yielded in the iteration order of a HashSet) are compared as a set. ---- *)
+Definition set_eqb (a b : list nat) : bool := (length a =? length b) && forallb (fun x => memb x b) a && forallb (fun x => memb x a) b.
+Definition flood_result_eqb (edges : bool) (model initial : option (list nat)) (got : list nat) : bool :=
+  match model with
+  | Some l =>
+      if edges then list_eqb Nat.eqb l got
+      else match initial with
+           | Some ini => let k := length ini in
+                         set_eqb (firstn k got) ini && list_eqb Nat.eqb (skipn k l) (skipn k got) && (length l =? length got)
+           | None => false
+           end
+  | None => false
+  end.
+(* inputs on which every sum, difference and product of the metrics is computed without rounding (integers below 2^23, f32: 2^9, on a common
+   scale 2^em; the centre of a rectangle needs one more bit) and the quotients are compared with 0 and 1 only *)
+Definition flood_exact (f32 : bool) (allp : list pnt) (em : Z) : bool :=
+  let bound := if f32 then 512%Z else 8388608%Z in
+  let emlo := if f32 then (-50)%Z else (-400)%Z in
+  forallb (fun p => (Z.abs (fst p) <? bound)%Z && (Z.abs (snd p) <? bound)%Z) allp && (emlo <=? em)%Z.
+Definition lres_eqb (a b : lres) : bool :=
+  match a, b with
+  | ROnVertex x, ROnVertex y | ROnEdge x, ROnEdge y | ROnFace x, ROnFace y | ROutside x, ROutside y => x =? y
+  | RPanic, RPanic => true
+  | _, _ => false
+  end.
+Fixpoint dedup_lres (l : list lres) : list lres :=
+  match l with [] => [] | x :: t => if existsb (lres_eqb x) t then dedup_lres t else x :: dedup_lres t end.
+(* the answers t.locate(c) can give: the locate model from every start vertex (the hint comes from the hint generator) *)
+Definition flood_locs (p : obs) (pts : list pnt) (dd : dcel) (c : pnt) : list lres :=
+  if nF p <=? 1 then [RPanic] else dedup_lres (map (fun v => locate_from_closest pts dd c v) (seq 0 (nV p))).
+Definition double (q : pnt) : pnt := (2 * fst q, 2 * snd q)%Z.
+Definition metric_agree_edges (dd : dcel) (m1 m2 : metric) : bool :=
+  forallb (fun k => Bool.eqb (m_edge m1 k) (m_edge m2 k)) (seq 0 (Raw.num_undirected_edges dd)).
+Definition metric_agree_points (dd : dcel) (m1 m2 : metric) : bool :=
+  forallb (fun v => Bool.eqb (m_vert m1 v) (m_vert m2 v)) (seq 0 (Raw.num_vertices dd)) && Bool.eqb (m_start m1) (m_start m2).
+Definition metric_agree (dd : dcel) (m1 m2 : metric) : bool := metric_agree_edges dd m1 m2 && metric_agree_points dd m1 m2.
+
+Definition flood_verdict (dd : dcel) (m : metric) (edges : bool) (locs : list lres) (got : list nat) : bool :=
+  let fuel := ff_fuel dd in
+  existsb (fun loc => if edges then flood_result_eqb true (edges_in_shape dd m fuel loc) None got
+                      else flood_result_eqb false (vertices_in_shape dd m fuel loc) (vertices_initial dd m loc) got) locs.
+
+(* (1) the exact metrics of Query/FloodFill.v on inputs of the exact class; on these the IEEE metrics must give the same answers for every
+   edge, every vertex and the start point (part of the verdict).  Exception: the floating-point distance from a circle's centre to the interior
+   of an edge involves a rounded quotient; for the circle queries the comparison is made only when the exact and the IEEE metric agree on
+   every edge (they differ at exact tangency and when the centre lies on an edge that is not axis-parallel). *)
+Definition check_flood_exact (f32 : bool) (op : Z) (p : obs) (args : list Z) (got : list nat) (mf : option metric) : list (tag * bool) :=
+  let dd := dcel_of_obs p in
+  let edges := (op =? OP_erect)%Z || (op =? OP_ecirc)%Z in
+  if (op =? OP_vrect)%Z || (op =? OP_erect)%Z then
+    match with_points p args with
+    | Some (pts0, [lo0; hi0], em) =>
+        if flood_exact f32 (lo0 :: hi0 :: pts0) em then
+          let pts := map double pts0 in let lo := double lo0 in let hi := double hi0 in
+          let c := rect_center lo hi in
+          let m := rect_metric pts dd lo hi c in
+          [(T_corr, flood_verdict dd m edges (flood_locs p pts dd c) got &&
+                    match mf with Some m' => metric_agree dd m m' | None => true end)]
+        else []
+    | _ => []
+    end
+  else
+    match args with
+    | [cx; cy; r2] =>
+      match with_points p [cx; cy], decode r2 with
+      | Some (pts, [c], em), Some (rm, re) =>
+          let r2' := (rm, (re - 2 * em)%Z) in
+          if flood_exact f32 (c :: pts) em && (0 <=? rm)%Z then
+            let m := circle_metric pts dd c r2' in
+            if match mf with Some m' => negb (metric_agree_edges dd m m') | None => false end then []
+            else [(T_corr, flood_verdict dd m edges (flood_locs p pts dd c) got &&
+                           match mf with Some m' => metric_agree_points dd m m' | None => true end)]
+          else []
+      | _, _ => []
+      end
+    | _ => []
+    end.
+
+(* (2) the IEEE metrics of Query/FloodFillFloat.v: every input.  The vertex positions and the start point are put on one integer scale for the
+   locate model. *)
+Section FloodFloat.
+Variables prec emax : Z.
+Variable Hp : FLX.Prec_gt_0 prec.
+Variable Hm : BinarySingleNaN.Prec_lt_emax prec emax.
+Definition ffl_metric (op : Z) (p : obs) (args : list Z) : option (metric * fpt prec emax) :=
+  let dd := dcel_of_obs p in
+  if (op =? OP_vrect)%Z || (op =? OP_erect)%Z then
+    match args with
+    | [x1; y1; x2; y2] =>
+        let lo := fpoint prec emax Hp Hm x1 y1 in let hi := fpoint prec emax Hp Hm x2 y2 in
+        Some (frect_metric prec emax Hp Hm dd lo hi, frect_center prec emax Hp Hm lo hi)
+    | _ => None
+    end
+  else
+    match args with
+    | [cx; cy; r2] =>
+        let c := fpoint prec emax Hp Hm cx cy in let r := of_f64 prec emax Hp Hm (Num.F64.f_of_bits r2) in
+        if fcircle_radius_ok prec emax r then Some (fcircle_metric prec emax Hp Hm dd c r, c) else None
+    | _ => None
+    end.
+Definition ffl_start (p : obs) (c : fpt prec emax) : option (list pnt * pnt) :=
+  if negb (BinarySingleNaN.is_finite (fx prec emax c) && BinarySingleNaN.is_finite (fy prec emax c)) then None else
+  match decode_all (coord_bits p) with
+  | Some ds =>
+      let all := ds ++ [normalize (dy_of prec emax (fx prec emax c)); normalize (dy_of prec emax (fy prec emax c))] in
+      let em := emin_of all in
+      let ps := pair_up (map (scale em) all) in
+      match skipn (nV p) ps with
+      | [q] => Some (firstn (nV p) ps, q)
+      | _ => None
+      end
+  | None => None
+  end.
+Definition check_flood_float (op : Z) (p : obs) (args : list Z) (got : list nat) : list (tag * bool) :=
+  let dd := dcel_of_obs p in
+  let edges := (op =? OP_erect)%Z || (op =? OP_ecirc)%Z in
+  match ffl_metric op p args with
+  | Some (m, c) =>
+      match ffl_start p c with
+      | Some (pts, q) => [(T_corr, flood_verdict dd m edges (flood_locs p pts dd q) got)]
+      | None => []
+      end
+  | None => []
+  end.
+End FloodFloat.
+
+Definition check_flood_model (f32 : bool) (op : Z) (p : obs) (args res : list Z) : list (tag * bool) :=
+  match counted res with
+  | None => []
+  | Some got =>
+      let mf := if f32 then option_map fst (ffl_metric 24 128 Hprec32 Hmax32 op p args)
+                else option_map fst (ffl_metric 53 1024 Num.F64.Hprec64 Num.F64.Hmax64 op p args) in
+      (if f32 then check_flood_float 24 128 Hprec32 Hmax32 op p args got
+       else check_flood_float 53 1024 Num.F64.Hprec64 Num.F64.Hmax64 op p args got)
+      ++ check_flood_exact f32 op p args got mf
+  end.
+
+
 Fixpoint run_model_steps (c : cfg) (p : obs) (k : nat) (l : list step) : list verdict :=
   match l with
   | [] => []
@@ -481,6 +621,8 @@ Fixpoint run_model_steps (c : cfg) (p : obs) (k : nat) (l : list step) : list ve
             else if (s_op st =? OP_confv)%Z || (s_op st =? OP_confp)%Z || (s_op st =? OP_isc)%Z then
               map (fun v => (k, fst v, snd v)) (check_conf_model (c_f32 c) (s_op st) p (s_args st) (s_res st))
             else if (s_op st =? OP_canc)%Z then map (fun v => (k, fst v, snd v)) (check_canc_model (c_f32 c) p (s_args st) (s_res st))
+            else if (s_op st =? OP_vrect)%Z || (s_op st =? OP_erect)%Z || (s_op st =? OP_vcirc)%Z || (s_op st =? OP_ecirc)%Z then
+              map (fun v => (k, fst v, snd v)) (check_flood_model (c_f32 c) (s_op st) p (s_args st) (s_res st))
             else if (s_op st =? OP_nnw)%Z then map (fun v => (k, fst v, snd v)) (check_weights_model c p true (s_args st) (s_res st))
             else if (s_op st =? OP_bary)%Z then map (fun v => (k, fst v, snd v)) (check_weights_model c p false (s_args st) (s_res st))
             else [])
